@@ -5,6 +5,7 @@ arriving on a control FIFO and acknowledges each on an ack FIFO.
 argv: ctl_fifo ack_fifo [options...]
   options: noraw      keep the tty mode as found
            ignhup     ignore SIGHUP and SIGINT
+           ignhuponly ignore SIGHUP only (SIGINT still terminates)
            ignterm    ignore SIGTERM too
            ready      write b'READY' to stdout once set up
 
@@ -19,6 +20,7 @@ commands (one per line):
   T           report tty/launch facts as JSON      -> ack 't <json>'
   Z <secs>    sleep                                -> ack 'z'
   P           ping                                 -> ack 'p'
+  H <secs>    fork a grandchild that ignores SIGHUP, keeps this process's terminal open and sleeps -> ack 'h <pid>'
 """
 import json
 import os
@@ -36,6 +38,9 @@ def main():
     if 'ignhup' in opts:
         signal.signal(signal.SIGHUP, signal.SIG_IGN)
         signal.signal(signal.SIGINT, signal.SIG_IGN)
+    if 'ignhuponly' in opts:
+        signal.signal(signal.SIGHUP, signal.SIG_IGN)
+        signal.signal(signal.SIGINT, signal.SIG_DFL)
     if 'ignterm' in opts:
         signal.signal(signal.SIGTERM, signal.SIG_IGN)
     israw = False
@@ -95,6 +100,17 @@ def main():
                 send('c')
             elif c == 'X':
                 os._exit(int(arg))
+            elif c == 'H':
+                hp = os.fork()
+                if hp == 0:
+                    try:
+                        signal.signal(signal.SIGHUP, signal.SIG_IGN)
+                        os.close(ctl)
+                        os.close(ack)
+                        time.sleep(float(arg))
+                    finally:
+                        os._exit(0)
+                send('h %d' % hp)
             elif c == 'K':
                 try:
                     # Python starts with SIGPIPE/SIGXFSZ ignored
